@@ -397,6 +397,26 @@ static int run_dfr8_new(const char *path)       /* DFR8: 8-bit rasters plain, ru
     CK(DFR8setpalette(NULL));
     return wl_nfail;
 }
+/* DFR8 keeps per-file-NAME state (dimension record already written, palette already written).  The file is re-created under the
+   name DFR8 used last: nothing of that state may leak into the new file */
+static int prep_dfr8_stale(const char *path)
+{
+    uint8 img[12 * 8];
+    for (int i = 0; i < 96; i++) img[i] = (uint8)(i / 12 + 5);
+    unlink(path);
+    DFR8restart();
+    if (DFR8addimage(path, img, 12, 8, COMP_RLE) == FAIL) return -1;      /* first incarnation, written by DFR8 */
+    if (unlink(path)) return -1;
+    return prep_h(path);                                                    /* second incarnation, made with the H interface */
+}
+static int run_dfr8_again(const char *path)     /* DFR8: same name, same dimensions as the file that was replaced; no DFR8restart */
+{
+    uint8 img[12 * 8]; wl_nfail = 0;
+    for (int i = 0; i < 96; i++) img[i] = (uint8)(i / 12 + 3);
+    CK(DFR8addimage(path, img, 12, 8, COMP_RLE));
+    CK(DFR8addimage(path, img, 12, 8, COMP_NONE));
+    return wl_nfail;
+}
 static int run_gr_comp(const char *path)        /* GR: deflate and RLE compressed images and a chunked image, each written in two calls */
 {
     uint8 b[16 * 12]; int32 fid, gr, ri; comp_info ci; wl_nfail = 0; memset(&ci, 0, sizeof ci);
@@ -572,6 +592,7 @@ static const workload_t WORKLOADS[] = {
     {"df24_new",  prep_h,    run_df24_new,  0, 0, 0},
     {"df24_jpeg", prep_h,    run_df24_jpeg, 0, 0, 0},
     {"dfr8_new",  prep_h,    run_dfr8_new,  0, 0, 0},
+    {"dfr8_again", prep_dfr8_stale, run_dfr8_again, 0, 0, 0},
     {"gr_comp",   prep_rich, run_gr_comp,   0, 0, 0},
     {"dfan_rw",   prep_dfan, run_dfan_rw,   0, 0, 0},
     {"dfsd_new",  prep_h,    run_dfsd_new,  0, 0, 0},
